@@ -116,7 +116,13 @@ class _ConsumerMixin:
         Stop consuming data from a producer, without disconnecting.
         """
         self.producer = None
-        if self.connected and self.disconnecting:
+        if self.connected and (
+            self.disconnecting
+            or (
+                getattr(self, "_writeDisconnecting", False)
+                and not getattr(self, "_writeDisconnected", False)
+            )
+        ):
             self.startWriting()
 
 
